@@ -391,8 +391,8 @@ pub fn spec() -> PropSpec {
     PropSpec {
         id: "C05",
         families: vec![Family { name: "tiny-limits", f: fam_tiny, weight: 50 }, Family { name: "general", f: fam_general, weight: 30 }, Family { name: "multi", f: fam_multi, weight: 20 }],
-        quick_worlds: 50_000,
-        thorough_worlds: 600_000,
+        quick_worlds: 120_000,
+        thorough_worlds: 1_200_000,
         panic_is_violation: false,
         rule: "each world = stream workloads under limit configurations drawn from {0,1,2, values around 2^6 and 2^14, defaults}, run-time window / stream-limit changes, and network faults that delay, reorder, duplicate and drop the credit-carrying packets; non-trivial = a fault fired or >1 connection; distinct = distinct abstract-event signature",
         assumptions: vec!["initial limits are the peer's configured TransportConfig values (the TLS-carried transport parameters are not decoded by the harness)", "the send_window clause is judged against a lower bound of the unacknowledged amount (bytes accepted by write() on streams not reset, minus bytes carried in packets that an ACK frame accepted by the connection covers): the endpoint may know of fewer acknowledged bytes than that, never more, so an excess is always real"],
